@@ -57,8 +57,13 @@ func (r *recHash) BlockSize() int { return 64 }
 
 // decodeDigest splits a recorder digest into (header id, content id).
 func decodeDigest(d digest.Digest) (string, string, bool) {
-	enc := d.Encoded()
-	raw, err := hex.DecodeString(enc)
+	// an empty or malformed digest (e.g. taken before the writer was closed) is an observation, not a crash
+	str := string(d)
+	i := strings.IndexByte(str, ':')
+	if i < 0 {
+		return "", "", false
+	}
+	raw, err := hex.DecodeString(str[i+1:])
 	if err != nil || len(raw) != 24 {
 		return "", "", false
 	}
